@@ -30,6 +30,7 @@ from .fold import (Folder, TOP, UNIT, INT_BITS, mk_int, mk_bool, _Abort, _State,
 
 NONE = ("adt", "std::option::Option", 0, "None", ())
 SYMK = ("sbyte", "sbits", "sbit", "tagint")
+ARITHK = ("lin", "bv")
 
 
 def some(v):
@@ -92,6 +93,10 @@ class PEval(Folder):
         self.steps_total = 0
         self.calls_seen = {}
         self._pdom = {}
+        self.lenient = False  # unmodelled external calls abort (False) or are opaque (True)
+        self.record_trace = False
+        self.arith = False  # symbolic arithmetic on payload bytes (encoders): off unless a rule asks for it
+        self.atom_ranges = {}
         self.sym_steps = 0
         self.summaries = {}  # callee path -> model, installed by a rule for one evaluation (opaque, separately verified callees)
 
@@ -304,6 +309,31 @@ class PEval(Folder):
                         return mk_int("usize", tgt[1])
                     if tgt[0] == "symslice":
                         return mk_int("usize", tgt[2] - tgt[1])
+        elif k == "cast" and self.arith and rv.get("kind") == "IntToInt":
+            from .fold import INT_BITS as IB, fits
+            v = self._operand(st, rv["op"])
+            ty = rv["ty"]
+            if v != TOP and v[0] in ("sbyte", "lin") and ty in IB:
+                r = self._range_of(v)
+                if r is not None and fits(ty, r[0]) and fits(ty, r[1]):
+                    return self._to_lin(v, ty)
+                bvv = self._to_bv(v)
+                if bvv is None:
+                    return TOP
+                v = bvv
+            if v != TOP and v[0] == "bv" and ty in IB:
+                n = IB[ty]
+                bits = v[2][:n] + (0,) * max(0, n - len(v[2]))
+                return self._bv_norm(ty, bits)
+        elif k == "un" and rv["op"] == "Not":
+            a = self._operand(st, rv["a"])
+            if a != TOP and a[0] == "sbit":
+                return ("sbit", a[1], a[2], not a[3])
+        elif k == "cast" and rv.get("kind", "").startswith(("PointerExposeProvenance", "PointerExposeAddress", "FnPtrToPtr")) or (
+                k == "cast" and rv.get("kind") in ("PtrToPtr", "Transmute") and False):
+            v = self._operand(st, rv["op"])
+            if v != TOP and v[0] in ("fn", "fnaddr"):
+                return ("fnaddr", v[1])
         elif k == "agg" and rv.get("agg") == "closure":
             return ("closure", rv.get("path"), tuple(self._operand(st, o) for o in rv["ops"]))
         elif k in ("ref", "rawptr"):
@@ -344,8 +374,12 @@ class PEval(Folder):
         cache = self._pdom.get(fn.path)
         if cache is None:
             n = fn.n
-            live = [i for i in range(n) if not fn.blocks[i]["cleanup"]]
-            succ = {i: [x for x in fn.succ[i] if not fn.blocks[x]["cleanup"]] for i in live}
+            def dead(i):
+                # ends the evaluation (unreachable / a diverging call): not a way to leave the region
+                t_ = fn.blocks[i]["term"]
+                return fn.blocks[i]["cleanup"] or t_["k"] == "unreachable" or (t_["k"] == "call" and t_.get("target") is None)
+            live = [i for i in range(n) if not dead(i)]
+            succ = {i: [x for x in fn.succ[i] if not dead(x)] for i in live}
             EXIT = -1
             full = set(live) | {EXIT}
             pd = {i: set(full) for i in live}
@@ -426,9 +460,180 @@ class PEval(Folder):
     def _binop(self, st, op, a, b):
         ka = a[0] if a != TOP else None
         kb = b[0] if b != TOP else None
+        if ka == "fnaddr" and kb == "fnaddr" and op in ("Eq", "Ne"):
+            return mk_bool((a[1] == b[1]) == (op == "Eq"))
+        if self.arith and (ka in ARITHK or kb in ARITHK or ka == "sbyte" or kb == "sbyte"):
+            return self._arith_binop(op, a, b)
         if ka in SYMK or kb in SYMK:
             return self._sym_binop(op, a, b)
         return super()._binop(st, op, a, b)
+
+    # ------------------------------------------------------- symbolic arithmetic (encoders, bit appenders)
+    # ("lin", ty, c0, ((atom, coef), ..)): an affine expression over payload atoms with known ranges (self.atom_range);
+    # ("bv", ty, (bit0, bit1, ..)): a word whose bits are 0, 1 or ("b", expr-key, k) = bit k of an expression/atom.
+    # Only the operations the encoders and push_bits apply have a meaning; everything else is TOP.
+    def _range_of(self, v):
+        if v == TOP:
+            return None
+        if v[0] == "int":
+            return (v[2], v[2])
+        if v[0] == "sbyte":
+            return self.atom_range(("sbyte", v[1]))
+        if v[0] == "lin":
+            lo = hi = v[2]
+            for atom, c in v[3]:
+                r = self.atom_range(atom)
+                if r is None:
+                    return None
+                lo += min(c * r[0], c * r[1])
+                hi += max(c * r[0], c * r[1])
+            return (lo, hi)
+        if v[0] == "bv":
+            hi = sum(1 << i for i, b in enumerate(v[2]) if b != 0)
+            lo = sum(1 << i for i, b in enumerate(v[2]) if b == 1)
+            return (lo, hi)
+        return None
+
+    def atom_range(self, atom):
+        return self.atom_ranges.get(atom[0])
+
+    def _to_lin(self, v, ty=None):
+        if v == TOP:
+            return None
+        if v[0] == "int":
+            return ("lin", ty or v[1], v[2], ())
+        if v[0] == "sbyte":
+            return ("lin", ty or "u8", 0, ((("sbyte", v[1]), 1),))
+        if v[0] == "lin":
+            return v if ty is None else ("lin", ty) + v[2:]
+        return None
+
+    def _lin_norm(self, ty, c0, terms):
+        d = {}
+        for a, c in terms:
+            d[a] = d.get(a, 0) + c
+        t = tuple(sorted(((a, c) for a, c in d.items() if c), key=repr))
+        if not t:
+            return mk_int(ty, c0)
+        return ("lin", ty, c0, t)
+
+    def _to_bv(self, v, ty=None):
+        """word view of a value: constant bits, or 'bit k of <expr>' symbols"""
+        from .fold import INT_BITS as IB
+        if v == TOP:
+            return None
+        if v[0] == "bv":
+            return v
+        if v[0] == "int":
+            t = ty or v[1] or "usize"
+            n = IB[t]
+            x = v[2] & ((1 << n) - 1)
+            return ("bv", t, tuple((x >> i) & 1 for i in range(n)))
+        if v[0] in ("sbyte", "lin"):
+            r = self._range_of(v)
+            t = ty or (v[1] if v[0] == "lin" else "u8")
+            if r is None or r[0] < 0:
+                return None
+            n = IB[t]
+            key = ("sbyte", v[1]) if v[0] == "sbyte" else v
+            if v[0] == "lin" and v[2] == 0 and len(v[3]) == 1 and v[3][0][1] == 1:
+                key = v[3][0][0]  # a bare atom keeps its identity through casts
+            width = max(1, r[1].bit_length())
+            return ("bv", t, tuple(("b", key, i) if i < width else 0 for i in range(n)))
+        return None
+
+    def _bv_norm(self, ty, bits):
+        if all(b in (0, 1) for b in bits):
+            return mk_int(ty, sum(b << i for i, b in enumerate(bits)))
+        return ("bv", ty, tuple(bits))
+
+    def _arith_binop(self, op, a, b):
+        from .fold import INT_BITS as IB, fits
+        ovf = op.endswith("WithOverflow")
+        base = op[:-len("WithOverflow")] if ovf else op
+        if base.endswith("Unchecked"):
+            base = base[:-len("Unchecked")]
+        if a == TOP or b == TOP:
+            return TOP
+        if base in ("Add", "Sub", "Mul") and not (a[0] == "bv" or b[0] == "bv"):
+            ty = (a[1] if a[0] in ("int", "lin") else "u8") or (b[1] if b[0] in ("int", "lin") else "u8")
+            la, lb = self._to_lin(a), self._to_lin(b)
+            if la is None or lb is None:
+                return TOP
+            if base == "Mul":
+                if not lb[3]:
+                    k, l = lb[2], la
+                elif not la[3]:
+                    k, l = la[2], lb
+                else:
+                    return TOP
+                res = self._lin_norm(ty, l[2] * k, tuple((at, c * k) for at, c in l[3]))
+            else:
+                sg = 1 if base == "Add" else -1
+                res = self._lin_norm(ty, la[2] + sg * lb[2], la[3] + tuple((at, sg * c) for at, c in lb[3]))
+            r = self._range_of(res)
+            if r is None:
+                return TOP
+            inside = fits(ty, r[0]) and fits(ty, r[1])
+            if ovf:
+                if inside:
+                    return ("tuple", (res, mk_bool(False)))
+                if not fits(ty, r[0]) and not fits(ty, r[1]) and (r[0] > 0) == (r[1] > 0):
+                    return ("tuple", (TOP, mk_bool(True)))
+                return ("tuple", (TOP, TOP))
+            return res if inside else TOP
+        if base in ("Eq", "Ne", "Lt", "Le", "Gt", "Ge"):
+            ra, rb = self._range_of(a), self._range_of(b)
+            if ra is None or rb is None:
+                return TOP
+            if ra[0] == ra[1] and rb[0] == rb[1] and (a[0] != "bv" or all(x in (0, 1) for x in a[2])) and (b[0] != "bv" or all(x in (0, 1) for x in b[2])):
+                x, y = ra[0], rb[0]
+                return mk_bool({"Eq": x == y, "Ne": x != y, "Lt": x < y, "Le": x <= y, "Gt": x > y, "Ge": x >= y}[base])
+            if ra[1] < rb[0]:
+                return mk_bool(base in ("Ne", "Lt", "Le"))
+            if ra[0] > rb[1]:
+                return mk_bool(base in ("Ne", "Gt", "Ge"))
+            if ra[1] <= rb[0] and base in ("Le", "Gt"):
+                return mk_bool(base == "Le")
+            if ra[0] >= rb[1] and base in ("Ge", "Lt"):
+                return mk_bool(base == "Ge")
+            return TOP
+        if base in ("BitAnd", "BitOr", "BitXor", "Shl", "Shr", "Add"):
+            ty = a[1] if a[0] in ("int", "lin", "bv") and a[1] else ("u8" if a[0] == "sbyte" else None)
+            if base in ("Shl", "Shr"):
+                va = self._to_bv(a)
+                if va is None or b[0] != "int":
+                    return TOP
+                n = len(va[2])
+                sh = b[2] % n
+                if base == "Shl":
+                    bits = (0,) * sh + va[2][:n - sh]
+                else:
+                    bits = va[2][sh:] + (0,) * sh
+                return self._bv_norm(va[1], bits)
+            ty = ty or (b[1] if b[0] in ("int", "lin", "bv") else "u8")
+            va, vb = self._to_bv(a, None if a[0] != "int" else ty), self._to_bv(b, None if b[0] != "int" else ty)
+            if va is None or vb is None or len(va[2]) != len(vb[2]):
+                return TOP
+            out = []
+            for x, y in zip(va[2], vb[2]):
+                if base == "BitAnd":
+                    z = 0 if (x == 0 or y == 0) else (y if x == 1 else (x if y == 1 else (x if x == y else None)))
+                elif base in ("BitOr", "Add"):
+                    if base == "Add" and x != 0 and y != 0:
+                        z = None  # a carry may arise: not a disjoint union
+                    else:
+                        z = 1 if (x == 1 or y == 1) else (y if x == 0 else (x if y == 0 else (x if x == y else None)))
+                else:
+                    z = (y if x == 0 else (x if y == 0 else (0 if x == y else None)))
+                    if z is None and x in (0, 1) and y in (0, 1):
+                        z = x ^ y
+                if z is None:
+                    return ("tuple", (TOP, TOP)) if ovf else TOP
+                out.append(z)
+            res = self._bv_norm(va[1], out)
+            return ("tuple", (res, mk_bool(False))) if ovf else res
+        return TOP
 
     def _sym_binop(self, op, a, b):
         if a != TOP and a[0] == "int" and b != TOP and b[0] in SYMK and op in ("BitAnd", "BitOr", "BitXor", "Eq", "Ne"):
@@ -522,6 +727,10 @@ class PEval(Folder):
                 name = fv[1]
         args = [self._operand(st, a) for a in t["args"]]
         self.calls_seen[name] = self.calls_seen.get(name, 0) + 1
+        if self.record_trace:
+            dargs = [self._load_ptr(st, a[1]) if (a != TOP and a[0] == "ref") else a for a in args]
+            st.trace.append({"callee": name, "args": args, "dargs": dargs, "line": t.get("line"), "file": t.get("file"),
+                             "depth": len(st.frames) - st.base, "in": st.frames[-1][0].path})
         fidx = len(st.frames) - 1
         if t.get("target") is None:
             raise _Abort("diverge", "diverging call to %s at %s:%s" % (name, t.get("file"), t.get("line")))
@@ -537,7 +746,13 @@ class PEval(Folder):
             self._enter_block(st, t["target"])
             return
         if name in PMODELS:
-            v = PMODELS[name](self, st, args, t)
+            try:
+                v = PMODELS[name](self, st, args, t)
+            except _Abort as ab:
+                if self.lenient and ab.kind == "top":
+                    self._opaque_call(st, t, args)  # the model cannot say: treat the call as opaque
+                    return
+                raise
             self._store(st, fidx, t["dest"], v)
             self._enter_block(st, t["target"])
             return
@@ -546,6 +761,11 @@ class PEval(Folder):
             self._store(st, fidx, t["dest"], v)
             self._enter_block(st, t["target"])
             return
+        if name == "<T as std::convert::Into<U>>::into" and len(t.get("generics") or []) == 2:
+            src, dst = t["generics"]
+            cands = [p_ for p_, r_ in self.facts.fns.items() if r_.get("name") == "from" and r_.get("inputs") == [src] and r_.get("output") == dst]
+            if len(cands) == 1:
+                name = cands[0]
         callee = self.facts.fn(name) if name else None
         if callee is not None and callee.raw["kind"] == "Closure":
             # Fn*/call*(env, (a, b, ..)): the closure body takes its arguments untupled
@@ -562,6 +782,10 @@ class PEval(Folder):
             self._push_frame(st, callee, args, t["dest"], t["target"])
             if key is not None:
                 st.frames[-1].append(key)
+            return
+        if self.lenient:
+            # an external function without a model: result unknown, pointees of mutable references unknown
+            self._opaque_call(st, t, args)
             return
         raise _Abort("top", "call to %s is not modelled (at %s:%s)" % (name, t.get("file"), t.get("line")))
 
@@ -610,6 +834,11 @@ class PEval(Folder):
             c = self._load_ptr(st, c[1])
         if c == TOP or c[0] not in ("closure", "fn"):
             raise _Abort("top", "call of an unknown closure")
+        if c[0] == "fn":
+            # a function item used as a callback: modelled std function or crate function
+            for table in (self.summaries, PMODELS, MODELLED):
+                if c[1] in table:
+                    return table[c[1]](self, st, list(args), {"callee": c[1], "declared": c[1]})
         callee = self.facts.fn(c[1])
         if callee is None:
             raise _Abort("top", "closure body %s not available" % c[1])
@@ -666,6 +895,10 @@ def _as_iter(pe, st, v):
         tgt = pe._load_ptr(st, v[1])
         if tgt != TOP and tgt[0] == "array":
             return ("iter", tuple(("ref", ("const", x)) for x in tgt[1]), 0)
+        if tgt != TOP and tgt[0] == "symvec" and len(tgt) > 1:
+            return ("iter", tuple(("ref", ("const", ("sbyte", i))) for i in range(tgt[1])), 0)
+        if tgt != TOP and tgt[0] == "symslice":
+            return ("iter", tuple(("ref", ("const", ("sbyte", i))) for i in range(tgt[1], tgt[2])), 0)
         if tgt != TOP and tgt[0] == "hview":
             h = ("harr", tgt[1])
             return ("iter", tuple(("ref", ("const", pe.heap.get(h, i))) for i in range(tgt[2], tgt[3])), 0)
@@ -734,7 +967,14 @@ def _zip(pe, st, args, t):
     a, b = _as_iter(pe, st, args[0]), _as_iter(pe, st, args[1])
     if a is None or b is None:
         raise _Abort("top", "zip() of an unknown iterator")
-    return ("iter", tuple(("tuple", (x, y)) for x, y in zip(a[1][a[2]:], b[1][b[2]:])), 0)
+    av, bv_ = list(a[1][a[2]:]), list(b[1][b[2]:])
+    if len(b) > 3 and b[3] == ("cycle",) and not (len(a) > 3 and a[3] == ("cycle",)):
+        bv_ = [bv_[i % len(bv_)] for i in range(len(av))]
+    elif len(a) > 3 and a[3] == ("cycle",) and not (len(b) > 3 and b[3] == ("cycle",)):
+        av = [av[i % len(av)] for i in range(len(bv_))]
+    elif len(a) > 3 and a[3] == ("cycle",):
+        raise _Abort("top", "zip of two endless iterators")
+    return ("iter", tuple(("tuple", (x, y)) for x, y in zip(av, bv_)), 0)
 
 
 @pmodel("std::iter::Iterator::take")
@@ -772,11 +1012,15 @@ def _map(pe, st, args, t):
     return ("iter", tuple(pe.invoke_closure(st, args[1], [x]) for x in it[1][it[2]:]), 0)
 
 
-@pmodel("std::iter::Iterator::all", "std::iter::Iterator::any", "std::iter::Iterator::position")
+@pmodel("std::iter::Iterator::all", "std::iter::Iterator::any", "std::iter::Iterator::position",
+        "<std::slice::Iter<'a, T> as std::iter::Iterator>::position", "<std::slice::Iter<'a, T> as std::iter::Iterator>::all",
+        "<std::slice::Iter<'a, T> as std::iter::Iterator>::any")
 def _all_any(pe, st, args, t):
     name = (t.get("callee") or t.get("declared") or "").split("::")[-1]
     r = args[0]
     cur = _deref(pe, st, r)
+    if cur != TOP and cur[0] == "iter" and len(cur) > 3 and cur[3] == ("cycle",):
+        raise _Abort("top", "%s() on an endless iterator" % name)
     it = _as_iter(pe, st, cur)
     if it is None or r == TOP or r[0] != "ref":
         raise _Abort("top", "%s() of an unknown iterator" % name)
@@ -816,6 +1060,8 @@ def _skip(pe, st, args, t):
         "<std::iter::Filter<I, P> as std::iter::Iterator>::next",
         "<std::iter::Map<I, F> as std::iter::Iterator>::next",
         "<std::iter::Cycle<I> as std::iter::Iterator>::next",
+        "<std::slice::IterMut<'a, T> as std::iter::Iterator>::next",
+        "<std::slice::ChunksExact<'a, T> as std::iter::Iterator>::next",
         "<std::iter::Take<I> as std::iter::Iterator>::next",
         "<std::slice::Iter<'a, T> as std::iter::Iterator>::next")
 def _next(pe, st, args, t):
@@ -826,11 +1072,11 @@ def _next(pe, st, args, t):
     it = _as_iter(pe, st, cur)
     if it is None:
         raise _Abort("top", "next() on an unknown iterator")
-    _, vals, pos = it
+    vals, pos, extra = it[1], it[2], tuple(it[3:])
     if pos >= len(vals):
-        pe.store_ptr(st, r[1], ("iter", vals, pos))
+        pe.store_ptr(st, r[1], ("iter", vals, pos) + extra)
         return NONE
-    pe.store_ptr(st, r[1], ("iter", vals, pos + 1))
+    pe.store_ptr(st, r[1], ("iter", vals, pos + 1) + extra)
     return some(vals[pos])
 
 
@@ -878,6 +1124,62 @@ def _array_index(pe, st, args, t):
     raise _Abort("top", "unsupported index type")
 
 
+@pmodel("core::slice::<impl [T]>::chunks_exact")
+def _chunks_exact(pe, st, args, t):
+    v = _deref(pe, st, args[0])
+    n = args[1]
+    if v == TOP or n == TOP or n[0] != "int" or n[2] <= 0:
+        raise _Abort("top", "chunks_exact on an unknown slice")
+    if v[0] == "symvec" and len(v) > 1:
+        lo, hi = 0, v[1]
+    elif v[0] == "symslice":
+        lo, hi = v[1], v[2]
+    else:
+        raise _Abort("top", "chunks_exact on a concrete slice is not modelled")
+    k = n[2]
+    end = hi - (hi - lo) % k
+    return ("iter", tuple(("ref", ("const", ("symslice", a, a + k))) for a in range(lo, end, k)), 0, ("remainder", ("symslice", end, hi)))
+
+
+@pmodel("std::slice::ChunksExact::<'a, T>::remainder")
+def _chunks_remainder(pe, st, args, t):
+    v = _deref(pe, st, args[0])
+    if v != TOP and v[0] == "iter" and len(v) > 3 and v[3][0] == "remainder":
+        return ("ref", ("const", v[3][1]))
+    raise _Abort("top", "remainder() of an unknown chunk iterator")
+
+
+@pmodel("std::iter::Iterator::cycle")
+def _cycle(pe, st, args, t):
+    it = _as_iter(pe, st, args[0])
+    if it is None or not it[1][it[2]:]:
+        raise _Abort("top", "cycle() of an unknown or empty iterator")
+    return ("iter", tuple(it[1][it[2]:]), 0, ("cycle",))
+
+
+@pmodel("std::iter::Iterator::fold", "<std::slice::Iter<'a, T> as std::iter::Iterator>::fold")
+def _fold(pe, st, args, t):
+    it = _as_iter(pe, st, args[0])
+    if it is None or (len(it) > 3 and it[3] == ("cycle",)):
+        raise _Abort("top", "fold() of an unknown iterator")
+    acc = args[1]
+    for x in it[1][it[2]:]:
+        acc = pe.invoke_closure(st, args[2], [acc, x])
+    return acc
+
+
+@pmodel("core::slice::<impl [T]>::last", "core::slice::<impl [T]>::first")
+def _slice_last(pe, st, args, t):
+    v = _deref(pe, st, args[0])
+    last = (t.get("callee") or "").endswith("last")
+    if v != TOP and v[0] in ("symvec", "symslice"):
+        lo, hi = (0, v[1]) if v[0] == "symvec" else (v[1], v[2])
+        if hi <= lo:
+            return NONE
+        return some(("ref", ("const", ("sbyte", hi - 1 if last else lo))))
+    raise _Abort("top", "first()/last() on an unknown slice")
+
+
 @pmodel("core::slice::<impl [T]>::get")
 def _slice_get(pe, st, args, t):
     base, idx = args
@@ -899,9 +1201,49 @@ def _slice_get(pe, st, args, t):
     return some(("ref", ("const", pe._project(st, 0, tgt, [{"cidx": idx[2], "fe": False}]))))
 
 
+@pmodel("core::slice::<impl [T]>::iter_mut")
+def _iter_mut(pe, st, args, t):
+    r = args[0]
+    v = _deref(pe, st, r)
+    if r == TOP or r[0] != "ref" or r[1][0] != "place" or v == TOP or v[0] != "array":
+        raise _Abort("top", "iter_mut() on an unknown slice")
+    base = r[1]
+    return ("iter", tuple(("ref", ("place", base[1], base[2], tuple(base[3]) + ({"cidx": i, "fe": False},))) for i in range(len(v[1]))), 0)
+
+
+@pmodel("<std::vec::Vec<T, A> as std::ops::DerefMut>::deref_mut")
+def _deref_mut(pe, st, args, t):
+    return args[0]
+
+
+@pmodel("std::slice::<impl [S]>::join", "std::slice::<impl [T]>::join", "std::slice::<impl [T]>::concat")
+def _join(pe, st, args, t):
+    v = _deref(pe, st, args[0])
+    sep = _str_tokens(pe, st, args[1]) if len(args) > 1 else ()
+    if v == TOP or v[0] != "array" or sep is None:
+        raise _Abort("top", "join() of an unknown slice")
+    out = []
+    for i, x in enumerate(v[1]):
+        toks = _str_tokens(pe, st, x)
+        if toks is None:
+            raise _Abort("top", "join() of unknown strings")
+        if i:
+            out += list(sep)
+        out += list(toks)
+    return ("string", tuple(out))
+
+
+@pmodel("core::slice::<impl [T]>::is_empty", "std::vec::Vec::<T, A>::is_empty")
+def _slice_is_empty(pe, st, args, t):
+    n = _slice_len(pe, st, args, t)
+    return mk_bool(n[2] == 0)
+
+
 @pmodel("core::slice::<impl [T]>::len", "std::vec::Vec::<T, A>::len")
 def _slice_len(pe, st, args, t):
     v = _deref(pe, st, args[0])
+    if v != TOP and v[0] == "string" and all(isinstance(x, int) for x in v[1]):
+        return mk_int("usize", len(v[1]))
     if v != TOP:
         if v[0] == "symvec" and len(v) > 1:
             return mk_int("usize", v[1])
@@ -943,17 +1285,99 @@ def _add_ref(pe, st, args, t):
     return mk_int("usize", r)
 
 
+@pmodel("std::vec::from_elem")
+def _vec_from_elem(pe, st, args, t):
+    elem, n = args
+    if n == TOP or n[0] != "int":
+        raise _Abort("top", "vec![x; n] with unknown n")
+    if n[2] <= 16 and not (elem != TOP and elem[0] == "int"):
+        return ("array", (elem,) * n[2])  # a short vector of structured values: a plain value (merges under symbolic branches)
+    return pe.heap.new(n[2], elem)
+
+
+@pmodel("std::vec::Vec::<T>::new")
+def _vec_new(pe, st, args, t):
+    return pe.heap.new(0, TOP)
+
+
+@pmodel("std::vec::Vec::<T, A>::resize")
+def _vec_resize(pe, st, args, t):
+    r, n, val = args
+    v = _deref(pe, st, r)
+    if v == TOP or v[0] != "harr" or n == TOP or n[0] != "int":
+        raise _Abort("top", "resize of an unknown vector")
+    ent = pe.heap.arrs[v[1]]
+    old = ent[0]
+    if n[2] > old:
+        for i in range(old, n[2]):
+            ent[2][i] = val
+    else:
+        for i in [k for k in ent[2] if k >= n[2]]:
+            del ent[2][i]
+    ent[0] = n[2]
+    pe.heap.version += 1
+    return UNIT
+
+
+@pmodel("<std::vec::Vec<T, A> as std::ops::IndexMut<I>>::index_mut")
+def _vec_index_mut(pe, st, args, t):
+    return _vec_index(pe, st, args, t)
+
+
 @pmodel("<std::vec::Vec<T, A> as std::ops::Index<I>>::index")
 def _vec_index(pe, st, args, t):
     v = _deref(pe, st, args[0])
     i = args[1]
+    if v != TOP and v[0] == "harr" and i != TOP and i[0] == "int" and args[0][1][0] == "place":
+        if not 0 <= i[2] < pe.heap.length(v):
+            raise _Abort("diverge", "index %d out of range for a vector of length %d" % (i[2], pe.heap.length(v)))
+        base = args[0][1]
+        return ("ref", ("place", base[1], base[2], tuple(base[3]) + ({"cidx": i[2], "fe": False},)))
     if v != TOP and v[0] == "symvec" and i != TOP and i[0] == "int":
         return ("ref", ("const", ("sbyte", i[2])))
     if v != TOP and v[0] == "array" and i != TOP and i[0] == "int":
         if not 0 <= i[2] < len(v[1]):
-            raise _Abort("diverge", "index out of range")
+            raise _Abort("diverge", "index %d out of range for a vector of length %d" % (i[2], len(v[1])))
+        if args[0][1][0] == "place":
+            base = args[0][1]
+            return ("ref", ("place", base[1], base[2], tuple(base[3]) + ({"cidx": i[2], "fe": False},)))
         return ("ref", ("const", v[1][i[2]]))
     raise _Abort("top", "Vec index on an unknown vector")
+
+
+# --------------------------------------------------------------------------
+# integer helpers (documented semantics), on known integers
+# --------------------------------------------------------------------------
+
+def _int_helper(name, fn):
+    names = []
+    for ty in ("usize", "u8", "u16", "u32", "u64", "isize", "i32", "i64"):
+        names.append("core::num::<impl %s>::%s" % (ty, name))
+    @pmodel(*names)
+    def f(pe, st, args, t):
+        a, b = args[0], args[1]
+        if a == TOP or b == TOP or a[0] != "int" or b[0] != "int":
+            ra, rb = pe._range_of(a) if pe.arith else None, pe._range_of(b) if pe.arith else None
+            if name == "saturating_sub" and ra and rb and ra[0] >= rb[1]:
+                return pe._arith_binop("Sub", a, b)  # cannot saturate on these ranges
+            return TOP
+        ty = a[1] or b[1] or "usize"
+        from .fold import ty_range
+        lo, hi = ty_range(ty)
+        return fn(ty, a[2], b[2], lo, hi)
+    return f
+
+
+_int_helper("saturating_sub", lambda ty, x, y, lo, hi: mk_int(ty, max(lo, min(hi, x - y))))
+_int_helper("saturating_add", lambda ty, x, y, lo, hi: mk_int(ty, max(lo, min(hi, x + y))))
+_int_helper("wrapping_sub", lambda ty, x, y, lo, hi: mk_int(ty, (x - y - lo) % (hi - lo + 1) + lo))
+_int_helper("wrapping_add", lambda ty, x, y, lo, hi: mk_int(ty, (x + y - lo) % (hi - lo + 1) + lo))
+_int_helper("abs_diff", lambda ty, x, y, lo, hi: mk_int(ty, abs(x - y)))
+_int_helper("checked_sub", lambda ty, x, y, lo, hi: some(mk_int(ty, x - y)) if lo <= x - y <= hi else NONE)
+_int_helper("checked_add", lambda ty, x, y, lo, hi: some(mk_int(ty, x + y)) if lo <= x + y <= hi else NONE)
+_int_helper("div_ceil", lambda ty, x, y, lo, hi: mk_int(ty, -(-x // y)) if y else TOP)
+_int_helper("rem_euclid", lambda ty, x, y, lo, hi: mk_int(ty, x % y) if y else TOP)
+_int_helper("pow", lambda ty, x, y, lo, hi: mk_int(ty, x ** y) if lo <= x ** y <= hi else TOP)
 
 
 # --------------------------------------------------------------------------
@@ -967,6 +1391,8 @@ def _is_variant(v, path, name):
 
 
 def _known_adt(v, path, what):
+    if v != TOP and v[0] == "enum" and v[1] == path and v[2] in ("None",):
+        return NONE  # a fieldless variant of a std enum decoded from a constant
     if v == TOP or v[0] != "adt" or v[1] != path:
         raise _Abort("top", "%s of an unknown value" % what)
     return v
@@ -1006,6 +1432,42 @@ def _opt_ok_or_else(pe, st, args, t):
     if o[3] == "Some":
         return ("adt", RESULT, 0, "Ok", (o[4][0],))
     return ("adt", RESULT, 1, "Err", (pe.invoke_closure(st, args[1], []),))
+
+
+@pmodel("std::option::Option::<T>::or")
+def _opt_or(pe, st, args, t):
+    o = _known_adt(args[0], OPTION, "or")
+    return o if o[3] == "Some" else args[1]
+
+
+@pmodel("std::option::Option::<T>::or_else")
+def _opt_or_else(pe, st, args, t):
+    o = _known_adt(args[0], OPTION, "or_else")
+    return o if o[3] == "Some" else pe.invoke_closure(st, args[1], [])
+
+
+@pmodel("std::option::Option::<T>::and_then")
+def _opt_and_then(pe, st, args, t):
+    o = _known_adt(args[0], OPTION, "and_then")
+    return pe.invoke_closure(st, args[1], [o[4][0]]) if o[3] == "Some" else NONE
+
+
+@pmodel("std::option::Option::<T>::and")
+def _opt_and(pe, st, args, t):
+    o = _known_adt(args[0], OPTION, "and")
+    return args[1] if o[3] == "Some" else NONE
+
+
+@pmodel("std::option::Option::<T>::zip")
+def _opt_zip(pe, st, args, t):
+    a, b = _known_adt(args[0], OPTION, "zip"), _known_adt(args[1], OPTION, "zip")
+    return some(("tuple", (a[4][0], b[4][0]))) if a[3] == "Some" and b[3] == "Some" else NONE
+
+
+@pmodel("std::option::Option::<T>::is_some_and")
+def _opt_is_some_and(pe, st, args, t):
+    o = _known_adt(args[0], OPTION, "is_some_and")
+    return pe.invoke_closure(st, args[1], [o[4][0]]) if o[3] == "Some" else mk_bool(False)
 
 
 @pmodel("std::option::Option::<T>::map")
@@ -1086,6 +1548,8 @@ def _opt_from_residual(pe, st, args, t):
 # --------------------------------------------------------------------------
 
 def merge_sel(cond, x, y):
+    if x != TOP and y != TOP and x[0] == "array" and y[0] == "array" and len(x[1]) == len(y[1]):
+        return ("array", tuple(a if a == b else merge_sel(cond, a, b) for a, b in zip(x[1], y[1])))
     if x != TOP and y != TOP and x[0] == "string" and y[0] == "string":
         a, b = x[1], y[1]
         n = 0
@@ -1203,9 +1667,23 @@ def _identity(pe, st, args, t):
     return args[0]
 
 
+def _deref_all(pe, st, v):
+    for _ in range(4):
+        if v != TOP and v[0] == "ref":
+            v = pe._load_ptr(st, v[1])
+        else:
+            break
+    return v
+
+
 @pmodel("core::fmt::rt::Argument::<'_>::new_display")
 def _new_display(pe, st, args, t):
-    return ("fmtarg", _deref(pe, st, args[0]))
+    return ("fmtarg", _deref_all(pe, st, args[0]))
+
+
+@pmodel("core::fmt::rt::Argument::<'_>::new_lower_hex")
+def _new_lower_hex(pe, st, args, t):
+    return ("fmtarg", _deref(pe, st, args[0]), "x")
 
 
 @pmodel("std::fmt::Arguments::<'a>::new")
@@ -1237,12 +1715,20 @@ def _fmt_format(pe, st, args, t):
             if idx >= len(a[2]) or a[2][idx] == TOP or a[2][idx][0] != "fmtarg":
                 raise _Abort("top", "format placeholder without argument")
             v = a[2][idx][1]
-            if v != TOP and v[0] == "char":
+            if len(a[2][idx]) > 2 and a[2][idx][2] == "x" and v != TOP and v[0] == "int":
+                txt = format(v[2], "x")
+                width = piece[3] or 0
+                zero = piece[2] is not None and (piece[2] & (1 << 24))
+                txt = txt.rjust(width, "0" if zero else " ")
+                out += [ord(c) for c in txt]
+            elif v != TOP and v[0] == "char":
                 out.append(v[1])
             elif v != TOP and v[0] == "int" and piece[2] is None and piece[3] is None:
                 out += [ord(c) for c in str(v[2])]
             elif v != TOP and v[0] == "string":
                 out += list(v[1])
+            elif v != TOP and v[0] == "str":
+                out += [ord(c) for c in v[1]]
             else:
                 out.append(("disp", v, piece[2], piece[3], piece[4]))
     return ("string", tuple(out))
